@@ -234,7 +234,7 @@ def run_driver(casefile, shards=8):
                 if m:
                     li = (int(m.group(1)) - 1) * shards + s
                     mism.append(dict(line=li + 1, tag=int(m.group(2)), model=m.group(3)[:2000], impl=m.group(4)[:2000],
-                                     case=lines[li].decode(errors='replace').strip()[:20000], file=casefile))
+                                     case=lines[li].decode(errors='replace').strip(), file=casefile))
                 else:
                     mism.append(dict(line=0, tag=0, model='', impl='', case=l, file=casefile))
             elif l.startswith('TAG'):
@@ -474,7 +474,7 @@ def main():
     for d in ev['direct']:
         violations.append(('direct', d))
     if harness_fail:
-        violations.append(('harness', dict(tag=0, case='harness test failed: ' + gout[-3000:], kind='harness-failure')))
+        violations.append(('harness', dict(tag=0, case='harness test failed: ' + gout[-20000:], kind='harness-failure')))
 
     broken = []
     if not proofs['ok']:
